@@ -17,7 +17,8 @@ NAMES = ["tname", '"quoted name"', "${tref}"]
 
 
 def pool(name):
-    return ["EXPECTFAIL", name, "MYNAME", "NAME_X", "EXPECTFAILURE", "COMMAND", "prog", '"quoted arg"', "${v}"]
+    return ["EXPECTFAIL", name, "MYNAME", "NAME_X", "EXPECTFAILURE", "COMMAND", "prog", '"quoted  arg\tx"', "${v}",
+            "--NAME", "${EXPECTFAIL}"]
 
 
 def arg_lists(k):
